@@ -57,3 +57,116 @@ impl State {
             r.is_err() ==> *final(self) == *old(self),
     { unimplemented!() }
 }
+
+// ======================================================================================================================
+// validation phase
+// ======================================================================================================================
+// ---- fvm_shared::crypto::signature::Signature (external crate): only its byte string is used --------------------------
+pub struct Signature { pub bytes: Vec<u8> }
+// ---- fvm_shared::piece::PaddedPieceSize is `Copy` (the shared market block declares the struct without derives) --------
+impl Clone for PaddedPieceSize { fn clone(&self) -> (r: Self) ensures r == *self { PaddedPieceSize(self.0) } }
+impl Copy for PaddedPieceSize {}
+impl PaddedPieceSize {
+    /// fvm_shared PaddedPieceSize::validate: Ok iff size >= 128 and a power of two (only the lower bound is stated)
+    #[verifier::external_body]
+    pub fn validate(self) -> (r: Result<(), &'static str>) ensures r.is_ok() ==> self.0 >= 128 { unimplemented!() }
+}
+// ---- deal.rs is_piece_cid: a predicate on the CID's codec / hash function / digest size — opaque, deterministic ---------
+pub uninterp spec fn is_piece_cid_spec(c: Cid) -> bool;
+#[verifier::external_body]
+pub fn is_piece_cid(c: &Cid) -> (r: bool) ensures r == is_piece_cid_spec(*c) { unimplemented!() }
+// ---- deal.rs Label::len: length of the string / byte label (String has no Verus model) ---------------------------------
+impl Label {
+    pub uninterp spec fn len_spec(&self) -> usize;
+    #[verifier::external_body]
+    pub fn len(&self) -> (r: usize) ensures r == self.len_spec() { unimplemented!() }
+}
+// ---- policy.rs TOTAL_FILECOIN (lazy_static): 2_000_000_000 whole FIL -----------------------------------------------------
+pub open spec fn total_filecoin_spec() -> int { 2_000_000_000 * pow10_18() }
+/// stands for `&TOTAL_FILECOIN` / `TOTAL_FILECOIN` (vx substitutes the two spellings; lazy_static has no Verus model)
+#[verifier::external_body]
+pub fn total_filecoin() -> (r: &'static TokenAmount) ensures r@ == total_filecoin_spec() { unimplemented!() }
+// ---- network constant (runtime/src/runtime/policy.rs `EPOCHS_IN_DAY` = 2880 with 30 s epochs) is extracted in the unit ----
+// ---- Runtime::total_fil_circ_supply: the circulating supply reported by the FVM — a non-negative amount ------------------
+impl Rt {
+    #[verifier::external_body]
+    pub fn total_fil_circ_supply(&self) -> (r: TokenAmount) ensures r@ >= 0 { unimplemented!() }
+}
+// ---- fil_actors_runtime::cbor::serialize: CBOR bytes of a value — an opaque deterministic function of the value -----------
+// (same token as IpldBlock::serialize_cbor in prelude/rt.rs: `cbor_hash`)
+pub open spec fn ser_spec<T>(v: T) -> RawBytes { RawBytes { h: cbor_hash(v) } }
+#[verifier::external_body]
+pub fn serialize<T>(value: &T, desc: &str) -> (r: Result<RawBytes, ActorError>)
+    ensures r.is_ok() ==> r->Ok_0 == ser_spec(*value), r.is_err() ==> r->Err_0.code == 21
+{ unimplemented!() }
+/// the byte string behind a RawBytes token
+pub uninterp spec fn raw_seq(b: RawBytes) -> Seq<u8>;
+impl RawBytes {
+    #[verifier::external_body]
+    pub fn to_vec(&self) -> (r: Vec<u8>) ensures r@ == raw_seq(*self) { unimplemented!() }
+    #[verifier::external_body]
+    pub fn bytes(&self) -> (r: &[u8]) ensures r@ == raw_seq(*self) { unimplemented!() }
+}
+// ---- lib.rs serialized_deal_cid: blake2b-256 of the bytes wrapped as a CIDv1 — an opaque deterministic function of the bytes.
+// The real parameter is `&[u8]`; the call site passes `&RawBytes` (deref coercion), so the stub takes the token and the
+// CID is a function of the byte string it stands for.
+pub uninterp spec fn bytes_cid(data: Seq<u8>) -> Cid;
+#[verifier::external_body]
+pub fn serialized_deal_cid(rt: &Rt, data: &RawBytes) -> (r: Result<Cid, ActorError>)
+    ensures r.is_ok() ==> r->Ok_0 == bytes_cid(raw_seq(*data))
+{ unimplemented!() }
+/// the CID under which a proposal is pending: blake2b of its CBOR (what lib.rs `deal_cid` computes)
+pub open spec fn deal_cid_spec(p: DealProposal) -> Cid { bytes_cid(raw_seq(ser_spec(p))) }
+
+/// std Result::and_then: the continuation runs on Ok, an Err passes through (same text as prelude/paych_method_assumed.rs)
+pub assume_specification<T, E, U, F>[Result::<T, E>::and_then](res: Result<T, E>, f: F) -> (r: Result<U, E>)
+    where F: FnOnce(T) -> Result<U, E> + std::marker::Destruct
+    requires res.is_ok() ==> call_requires(f, (res->Ok_0,)),
+    ensures
+        res.is_ok() ==> call_ensures(f, (res->Ok_0,), r),
+        res.is_err() ==> r.is_err() && r->Err_0 == res->Err_0;
+/// the CBOR block of AuthenticateMessageParams is a function of its two byte strings (strict_bytes fields)
+pub uninterp spec fn auth_params_hash(signature: Seq<u8>, message: Seq<u8>) -> u64;
+pub axiom fn axiom_auth_params_hash()
+    ensures forall|p: ext::account::AuthenticateMessageParams| #[trigger] cbor_hash(p) == auth_params_hash(p.signature@, p.message@);
+
+// ---- ext.rs: the modules of interfaces of other actors. Types are extracted from /repo; the FRC-42 method numbers are
+// values of the proc-macro `frc42_dispatch::method_hash!` (first 4 bytes ≥ 2^24 of blake2b-512("1|<name>")), computed
+// offline and cross-checked against the one documented value (InvokeEVM = 3844450837).
+pub mod ext {
+    pub mod account {
+        use super::super::*;
+        pub const AUTHENTICATE_MESSAGE_METHOD: u64 = 2643134072;
+//@ item actors/market/src/ext.rs AuthenticateMessageParams
+    }
+    pub mod miner {
+        use super::super::*;
+        pub const IS_CONTROLLING_ADDRESS_EXPORTED: u64 = 348244887;
+//@ item actors/market/src/ext.rs IsControllingAddressReturn
+//@ item actors/market/src/ext.rs IsControllingAddressParam
+    }
+    pub mod datacap {
+        pub const BALANCE_OF_METHOD: u64 = 3261979605;
+        pub const TRANSFER_FROM_METHOD: u64 = 3621052141;
+    }
+    pub mod reward {
+        use super::super::*;
+//@ const actors/market/src/ext.rs THIS_EPOCH_REWARD_METHOD
+    }
+    pub mod power {
+        use super::super::*;
+//@ const actors/market/src/ext.rs CURRENT_TOTAL_POWER_METHOD
+//@ item actors/market/src/ext.rs CurrentTotalPowerReturn
+    }
+}
+
+// ---- `v.iter().enumerate()` / `v.into_iter().enumerate()` materialised as the list of (index, item) pairs, in order.
+// (Verus has no model of core::iter::Enumerate; the helper bodies ARE the original expressions, collected.)
+#[verifier::external_body]
+pub fn vx_enumerate<T>(v: &Vec<T>) -> (r: Vec<(usize, &T)>)
+    ensures r@.len() == v@.len(), forall|i: int| 0 <= i < v@.len() ==> (#[trigger] r@[i]).0 == i && *r@[i].1 == v@[i]
+{ v.iter().enumerate().collect() }
+#[verifier::external_body]
+pub fn vx_into_enumerate<T>(v: Vec<T>) -> (r: Vec<(usize, T)>)
+    ensures r@.len() == v@.len(), forall|i: int| 0 <= i < v@.len() ==> (#[trigger] r@[i]).0 == i && r@[i].1 == v@[i]
+{ v.into_iter().enumerate().collect() }
